@@ -94,6 +94,99 @@ hb!(rpjive_hash_bytes_len28_bounded, 28);
 hb!(rpjive_hash_bytes_len29_bounded, 29);
 hb!(rpjive_hash_bytes_len35_bounded, 35);
 
+/// a second, cheaper permutation double for the multi-block harnesses: rotation by one word, the first
+/// capacity word added to every word, plus a constant in word 0
+pub fn perm_rot(state: &mut [BaseElement; STATE_WIDTH]) {
+    let old = *state;
+    let mut i = 0;
+    while i < STATE_WIDTH {
+        state[i] = old[(i + 1) % STATE_WIDTH] + old[0];
+        i += 1;
+    }
+    state[0] = state[0] + BaseElement::ONE;
+}
+
+/// the documented sponge (Hirose padding) over base-field residues, written independently of hash_elements:
+/// 8 words, words 0..3 capacity, 4..7 rate; capacity word 0 is 1 iff the number of residues is not a multiple
+/// of the rate 4; residues are added into the rate, the permutation runs after every 4; a partial block is
+/// completed by a 1 followed by zeros and permuted; the digest is words 4..7
+fn reference_sponge(residues: &[BaseElement]) -> ElementDigest {
+    let mut st = [BaseElement::ZERO; 8];
+    if residues.len() % 4 != 0 {
+        st[0] = BaseElement::ONE;
+    }
+    let mut filled = 0usize;
+    let mut k = 0usize;
+    while k < residues.len() {
+        st[4 + filled] = st[4 + filled] + residues[k];
+        filled += 1;
+        if filled == 4 {
+            perm_rot(&mut st);
+            filled = 0;
+        }
+        k += 1;
+    }
+    if filled > 0 {
+        st[4 + filled] = BaseElement::ONE;
+        filled += 1;
+        while filled < 4 {
+            st[4 + filled] = BaseElement::ZERO;
+            filled += 1;
+        }
+        perm_rot(&mut st);
+    }
+    ElementDigest::new([st[4], st[5], st[6], st[7]])
+}
+
+fn any_elements<const L: usize>() -> [BaseElement; L] {
+    let raw: [u64; L] = kani::any();
+    let mut els = [BaseElement::ZERO; L];
+    let mut i = 0;
+    while i < L {
+        kani::assume(raw[i] < M);
+        els[i] = BaseElement::from_mont(raw[i]);
+        i += 1;
+    }
+    els
+}
+
+fn hash_elements_is_reference_sponge<const L: usize>() {
+    let els = any_elements::<L>();
+    assert!(same(RpJive64_256::hash_elements(&els), reference_sponge(&els)));
+}
+
+macro_rules! he {
+    ($name:ident, $l:expr) => {
+        #[kani::proof]
+        #[kani::unwind(20)]
+        #[kani::stub(BaseElement::new, new_stub)]
+        #[kani::stub(RpJive64_256::apply_permutation, perm_rot)]
+        fn $name() {
+            hash_elements_is_reference_sponge::<$l>();
+        }
+    };
+}
+he!(rpjive_hash_elements_len0_bounded, 0);
+he!(rpjive_hash_elements_len1_bounded, 1);
+he!(rpjive_hash_elements_len3_bounded, 3);
+he!(rpjive_hash_elements_len4_bounded, 4);
+he!(rpjive_hash_elements_len5_bounded, 5);
+he!(rpjive_hash_elements_len8_bounded, 8);
+he!(rpjive_hash_elements_len9_bounded, 9);
+
+#[kani::proof]
+#[kani::unwind(20)]
+#[kani::stub(BaseElement::new, new_stub)]
+#[kani::stub(RpJive64_256::apply_permutation, perm_rot)]
+fn rpjive_hash_elements_extension_typing_bounded() {
+    use math::fields::{CubeExtension, QuadExtension};
+    let c = any_elements::<6>();
+    let quad = [QuadExtension::new(c[0], c[1]), QuadExtension::new(c[2], c[3]), QuadExtension::new(c[4], c[5])];
+    assert!(same(RpJive64_256::hash_elements(&quad), reference_sponge(&c)));
+    let cube = [CubeExtension::new(c[0], c[1], c[2]), CubeExtension::new(c[3], c[4], c[5])];
+    assert!(same(RpJive64_256::hash_elements(&cube), reference_sponge(&c)));
+}
+
 #[kani::proof]
 #[kani::unwind(16)]
 #[kani::stub(BaseElement::new, new_stub)]
